@@ -21,7 +21,7 @@ BUDGET = {"quick": 12000, "thorough": 400000}
 def _cases(draw):
     which = draw(st.integers(0, 2))
     base = gen.PROFILES["text" if which == 0 else "broad"]
-    prof = dict(base, p_text_ref=0.6, p_table_list=0.1, p_hint=0.5, p_guidance=0.2, p_choice_label_ref=0.3, p_tag_names=0.12, p_default=0.3,
+    prof = dict(base, p_text_ref=0.6, p_table_list=0.1, p_hint=0.5, p_guidance=0.2, p_choice_label_ref=0.3, p_tag_names=0.12, p_default=0.3, p_osm=0.03,
                 p_extra_cols=0.5)
     return {"form": gen.build_form(draw, prof)}
 
